@@ -9,9 +9,17 @@ observations from its own observation model and writes variants of the same netw
                                                                             the numerically differentiated model
   N  observations with noise ~ N(0, C)                                  -> relations c, d, e, f and the reference
                                                                             Gauss-Newton step (numpy, own Jacobian)
-Violation keys: reproduce:<mix>:<exact|perturbed>, algorithms:<field>:<algA>-vs-<algB>, order:<field>, redundancy,
-defect:<datum>, datum-invariance:<field>, project-equations:<what>, reference-step:<mix>, rejected:<what>,
-gama-g3:<sanitizer key>.
+Violation keys (mix = observation kinds with the markers angle>200gon, angle(target-dh), angle(blh), (dh); a suffix
+:<alg>:singular is added where the adjusted system has a rank defect):
+  reproduce:<mix>:<exact|perturbed>[:<alg>:singular]      relations a, b
+  algorithms:<field>:<algA>-vs-<algB>:<regular|singular>  relation c
+  order:<field>:<alg>:<regular|singular>                  relation d
+  redundancy:counts, redundancy:<alg>, defect:<datum>:<alg>, dropped-observations:<kind>:points-as-<forms>,
+  datum-invariance:<field>:<alg>, ellipsoid:<id>          relation e
+  project-equations:{shape,parameter-order,rhs:<kind>,jacobian:<kind>,cov,minx,x:<alg>,defect:<alg>,sum-of-squares:<alg>,
+  reference:<alg>,...}                                    relation f
+  reference-step:<mix>:<any | alg:singular>               corrections vs the numpy Gauss-Newton step
+  rejected:<what>, output-xml:<variant>, gama-g3:<sanitizer key>, adjdrv:<alg>:<sanitizer key>
 """
 import json
 import math
@@ -965,7 +973,8 @@ def run(tier, seed, only=None):
                 wit = {k: v for k, v in wit.items() if k not in ("input", "original_input")}
             ck.violation(key, what, wit)
         for name, err, tol in o.ratios:
-            ck.ratio(name, err, tol)
+            # head-room of the comparisons that held; exceedances are violations and are kept apart
+            ck.ratio(name if err <= tol else name + " [in violating cases]", err, tol)
         for name, c in o.counts.items():
             ck.count(name, c)
         for r in o.inconc:
@@ -991,7 +1000,7 @@ def run(tier, seed, only=None):
         "deflections of the vertical are zero; <unused> points and the <height> attribute are not exercised"]
     if only is None:
         ck.minimum = dict(evaluations=tier_n(tier, 700, 10000), distinct=tier_n(tier, 200, 1500),
-                          **{"networks adjusted by all four algorithms": tier_n(tier, 40, 600)})
+                          **{"networks adjusted by all four algorithms": tier_n(tier, 40, 500)})
     return ck.finish()
 
 
